@@ -498,3 +498,27 @@ pub fn systematic_mems() -> Vec<Mem> {
     }
     v
 }
+
+/// Compact list of addressing-mode shapes (every base register with no / 8-bit / 32-bit displacement,
+/// the SIB- and displacement-forced special cases with an index, index-only and RIP-relative forms);
+/// used where every instance is expensive (the Dora-assembler cross-check).
+pub fn compact_mems() -> Vec<Mem> {
+    let mut v = vec![];
+    for base in 0..16u8 {
+        v.push(Mem::Base { base, disp: 0 });
+        v.push(Mem::Base { base, disp: if base % 2 == 0 { 127 } else { -128 } });
+        v.push(Mem::Base { base, disp: if base % 2 == 0 { 128 } else { -129 } });
+    }
+    for (k, base) in [4u8, 5, 12, 13, 0, 9].into_iter().enumerate() {
+        for (j, index) in [0u8, 5, 13, 15].into_iter().enumerate() {
+            v.push(Mem::Array { base, index, scale: SCALES[(k + j) % 4], disp: 0 });
+            v.push(Mem::Array { base, index, scale: SCALES[(k + j + 1) % 4], disp: [1, -128, 128, i32::MIN][(k + j) % 4] });
+        }
+    }
+    for (k, index) in [0u8, 5, 12, 13, 15].into_iter().enumerate() {
+        v.push(Mem::Index { index, scale: SCALES[k % 4], disp: [0, -1, 128, i32::MAX, 8][k] });
+    }
+    v.push(Mem::Rip { disp: 0 });
+    v.push(Mem::Rip { disp: -129 });
+    v
+}
